@@ -545,7 +545,42 @@ class ArrayPlugin(object):
         fn = NP_FUNCS.get(name)
         if fn is None:
             return NotImplemented
+        # a keyword the model does not look at may change the result (dtype=, out=, keepdims=, where= ...): refuse it
+        known = _modelled_keywords(fn)
+        if known is not None:
+            for k in kwargs:
+                if k not in known:
+                    raise OutOfSubset("%s(..., %s=...): this keyword is not modelled" % (name, k))
         return fn(interp, args, kwargs)
+
+
+_KW_CACHE = {}
+
+
+def _modelled_keywords(fn):
+    """the keyword names a numpy model reads (string literals used with ``kwargs``), from its source; None if unknown"""
+    key = getattr(fn, "__code__", None)
+    if key in _KW_CACHE:
+        return _KW_CACHE[key]
+    import inspect
+    import re
+    names = None
+    try:
+        src = inspect.getsource(fn)
+        # models produced by a factory (closures): take the enclosing factory's source as well
+        if fn.__closure__ and "<locals>" in fn.__qualname__:
+            outer = globals().get(fn.__qualname__.split(".")[0])
+            if outer is not None:
+                src += inspect.getsource(outer)
+        if "kwargs" in src:
+            names = set(re.findall(r"kwargs(?:\.get|\.pop)?\(?\[?\s*[\"']([A-Za-z_]+)[\"']", src))
+            names |= set(re.findall(r"[\"']([A-Za-z_]+)[\"']\s+(?:not\s+)?in\s+kwargs", src))
+        else:
+            names = set()
+    except (OSError, TypeError):
+        names = None
+    _KW_CACHE[key] = names
+    return names
 
 
 class ArrFlags(object):
